@@ -5,6 +5,7 @@ document state machine (damaged states are ordinary states: dangling or wrong ow
 entities, entities listed in several entity spaces, block references without definition).
 -/
 import EzdxfVerif.Lemmas.Audit
+import EzdxfVerif.Lemmas.DocOwner
 
 namespace EzdxfVerif.Props.C06
 open EzdxfVerif.Doc
@@ -12,6 +13,12 @@ open EzdxfVerif.Doc
 /-- no false positives: on a clean state (every live database entity linked to an existing block
     record and listed only there, block references defined) audit applies no fix and changes nothing -/
 theorem audit_sound (s : State) (h : AuditClean s) : audit s = (s, 0) := Doc.audit_sound s h
+
+/-- no false positives of the block-section owner check for API-built documents: in every state reachable
+    by a history obeying the add_entity obligation, no entity is removed from any entity space -/
+theorem api_built_no_space_fix (s : State) (ops : List Op) (h : DocInv s) (ho : OwnerInv s) (hok : HistOk s ops) :
+    spaceFixes (run s ops) = 0 :=
+  Doc.spaceFixes_zero_of_ownerInv _ (Doc.owner_inv_reachable s ops h ho hok)
 
 /-- after ONE audit run the state is clean - for EVERY state, i.e. for any number and combination of
     the modelled faults, not just k <= 3 -/
